@@ -33,10 +33,10 @@ pub(crate) fn param_assignment(s: Span) -> IResult<Span, ParamAssignment> {
 #[packrat_parser]
 pub(crate) fn specparam_assignment(s: Span) -> IResult<Span, SpecparamAssignment> {
     alt((
-        specparam_assignment_mintypmax,
         map(pulse_control_specparam, |x| {
             SpecparamAssignment::PulseControlSpecparam(Box::new(x))
         }),
+        specparam_assignment_mintypmax,
     ))(s)
 }
 
@@ -94,8 +94,10 @@ pub(crate) fn pulse_control_specparam_with_descriptor(
     s: Span,
 ) -> IResult<Span, PulseControlSpecparam> {
     let (s, a) = symbol("PATHPULSE$")(s)?;
-    let (s, b) = specify_input_terminal_descriptor(s)?;
-    let (s, c) = symbol("$")(s)?;
+    let (s, (b, c)) = alt((
+        pair(specify_input_terminal_descriptor, symbol("$")),
+        pair(pathpulse_input_terminal_descriptor, symbol("$")),
+    ))(s)?;
     let (s, d) = specify_output_terminal_descriptor(s)?;
     let (s, e) = symbol("=")(s)?;
     let (s, f) = paren(pair(
@@ -108,6 +110,35 @@ pub(crate) fn pulse_control_specparam_with_descriptor(
             nodes: (a, b, c, d, e, f),
         })),
     ))
+}
+
+// In PATHPULSE$in$out the '$' separates the two terminals, so the name of the input terminal ends in front of it
+#[tracable_parser]
+#[packrat_parser]
+pub(crate) fn pathpulse_input_terminal_descriptor(
+    s: Span,
+) -> IResult<Span, SpecifyInputTerminalDescriptor> {
+    let (s, a) = ws(pathpulse_input_terminal_name_impl)(s)?;
+    let a = Identifier::SimpleIdentifier(Box::new(SimpleIdentifier { nodes: a }));
+    let a = InputIdentifier::InputPortIdentifier(Box::new(InputPortIdentifier { nodes: (a,) }));
+    let (s, b) = opt(bracket(constant_range_expression))(s)?;
+    Ok((s, SpecifyInputTerminalDescriptor { nodes: (a, b) }))
+}
+
+#[tracable_parser]
+pub(crate) fn pathpulse_input_terminal_name_impl(s: Span) -> IResult<Span, Locate> {
+    let (s, a) = is_a(AZ_)(s)?;
+    let (s, b) = opt(is_a(AZ09_))(s)?;
+    let a = if let Some(b) = b {
+        concat(a, b).unwrap()
+    } else {
+        a
+    };
+    if is_keyword(&a) {
+        Err(Err::Error(make_error(s, ErrorKind::Fix)))
+    } else {
+        Ok((s, into_locate(a)))
+    }
 }
 
 #[tracable_parser]
